@@ -351,9 +351,14 @@ func runParent(e *Engine, tier string, seed uint64, par int) int {
 		os.MkdirAll(replayDir, 0o755)
 	}
 	if len(total.Violations) > 0 {
-		all := total.Violations
-		if len(all) > 3000 {
-			all = all[:3000]
+		// keep the file small but diverse: at most 150 per signature, 3000 in all
+		var all []Violation
+		perSig := map[string]int{}
+		for _, v := range total.Violations {
+			if perSig[v.Sig] < 150 && len(all) < 3000 {
+				all = append(all, v)
+				perSig[v.Sig]++
+			}
 		}
 		ab, _ := json.Marshal(all)
 		os.WriteFile(filepath.Join(VerifDir, ".work", e.ID+".last_violations.json"), ab, 0o644)
